@@ -106,24 +106,49 @@ func eNull() *Expr            { return &Expr{K: "null"} }
 type Part struct {
 	Lit string
 	E   *Expr
+	// Wrap (harness-only, ignored by the specifications): the literal is written inside a markup
+	// wrapper that must not change the text of the line ("b": [b]lit[/b], "bp": with properties,
+	// "nomarkup": [nomarkup]lit[/nomarkup], "nomarkupall": closed by [/], "sc": lit[pause .../])
+	Wrap string
 }
 
 func (p Part) MarshalJSON() ([]byte, error) {
 	if p.E != nil {
 		return json.Marshal(map[string]any{"e": p.E})
 	}
+	if p.Wrap != "" {
+		return json.Marshal(map[string]any{"lit": p.Lit, "wrap": p.Wrap})
+	}
 	return json.Marshal(map[string]any{"lit": p.Lit})
+}
+
+// source returns the literal as it is written in the script.
+func (p Part) source() string {
+	switch p.Wrap {
+	case "b":
+		return "[b]" + p.Lit + "[/b]"
+	case "bp":
+		return `[wave speed=2 big=true label="x y"]` + p.Lit + "[/wave]"
+	case "nomarkup":
+		return "[nomarkup]" + p.Lit + "[/nomarkup]"
+	case "nomarkupall":
+		return "[nomarkup]" + p.Lit + "[/]"
+	case "sc":
+		return p.Lit + "[pause length=500/]"
+	}
+	return p.Lit
 }
 
 func (p *Part) UnmarshalJSON(b []byte) error {
 	var m struct {
-		Lit string `json:"lit"`
-		E   *Expr  `json:"e"`
+		Lit  string `json:"lit"`
+		E    *Expr  `json:"e"`
+		Wrap string `json:"wrap"`
 	}
 	if err := json.Unmarshal(b, &m); err != nil {
 		return err
 	}
-	p.Lit, p.E = m.Lit, m.E
+	p.Lit, p.E, p.Wrap = m.Lit, m.E, m.Wrap
 	return nil
 }
 
@@ -262,6 +287,7 @@ func defaultFuncs() map[string]string {
 		"p1": "id", "p2": "id", "boom": "boom", "noret": "noret",
 		"dice": "dice", "random_range": "random_range",
 		"cstr": "idstr", "cbool": "idbool", "cint": "idint",
+		"floor": "floor", "ceil": "ceil", "round": "round", "inc": "inc", "dec": "dec", "integer": "integer", "decimal": "decimal",
 	}
 }
 
